@@ -520,6 +520,7 @@ func runC06(x *X) {
 	runC06Reentrant(x)
 	runC06Items(x)
 	runC06FromCallback(x)
+	runC06ShapeFromCallback(x)
 	x.Explore("wrapper-lifecycle", ExploreOpts{ShardDepth: 2, Bound: fmt.Sprintf("all sequences of <=%d operations {set generator A, set generator B, set caption, set id+class, add row, add separator, Render, RenderTo a writer failing at / half-way through its first Write, Render with a generator that panics, AddHeaders(1 cell), AddHeaders(3 cells), a generator that renders another html wrapper from inside the render, a body cell replaced in place} on one long-lived wrapper", x.Pick(5, 6))}, func(c *Chooser) {
 		c06Lifecycle(x, c, x.Pick(5, 6))
 	})
